@@ -82,26 +82,9 @@ func propMatch(tags []string, prop string) bool {
 	return false
 }
 
-// Run generates all obligations of the function.
-func (g *Gen) Run() (err error) {
-	defer func() {
-		if r := recover(); r != nil {
-			switch x := r.(type) {
-			case unsupported:
-				err = fmt.Errorf("%s: out of subset: %s", g.key, x.msg)
-			case trErr:
-				err = fmt.Errorf("%s: contract error: %s", g.key, x.msg)
-			case error:
-				err = fmt.Errorf("%s: %v", g.key, x)
-			default:
-				panic(r)
-			}
-		}
-	}()
+// setupEntry declares parameters, lets, witnesses and assumes the precondition.
+func (g *Gen) setupEntry() *State {
 	fn := g.fn
-	if len(fn.Blocks) == 0 {
-		return fmt.Errorf("%s: no body", g.key)
-	}
 	g.u.kindSort["bytes"] = "(Seq Int)"
 	st := &State{H: map[string]string{}, A: "A0"}
 	g.declare("A0", "Int")
@@ -131,6 +114,50 @@ func (g *Gen) Run() (err error) {
 	for i, c := range g.con.Requires {
 		g.assume(g.mustClause(env, c.E, fmt.Sprintf("requires#%d", i)))
 	}
+	// witnesses for counterexample extraction: scalar parameters and declared witness expressions
+	g.wits = nil
+	for _, p := range fn.Params {
+		v := g.penv[p.Name()]
+		switch {
+		case v.Sort == "Int" || v.Sort == "Bool" || v.Sort == "(Seq Int)":
+			g.wits = append(g.wits, witness{p.Name(), v.T, v.Sort})
+		case v.Sort == "Slice" && isByteSlice(p.Type()):
+			g.wits = append(g.wits, witness{p.Name(), env.asSeq(v), "(Seq Int)"})
+		}
+	}
+	for _, w := range g.con.Witness {
+		v := env.tr(w.E)
+		if seqLike(v) {
+			g.wits = append(g.wits, witness{w.Name, env.asSeq(v), "(Seq Int)"})
+		} else {
+			r := env.rv(v)
+			g.wits = append(g.wits, witness{w.Name, r.T, r.Sort})
+		}
+	}
+	return st
+}
+
+// Run generates all obligations of the function.
+func (g *Gen) Run() (err error) {
+	defer func() {
+		if r := recover(); r != nil {
+			switch x := r.(type) {
+			case unsupported:
+				err = fmt.Errorf("%s: out of subset: %s", g.key, x.msg)
+			case trErr:
+				err = fmt.Errorf("%s: contract error: %s", g.key, x.msg)
+			case error:
+				err = fmt.Errorf("%s: %v", g.key, x)
+			default:
+				panic(r)
+			}
+		}
+	}()
+	fn := g.fn
+	if len(fn.Blocks) == 0 {
+		return fmt.Errorf("%s: no body", g.key)
+	}
+	st := g.setupEntry()
 	g.probe(shortKey(g.key)+"/vacuity:requires", "true", "precondition and type assumptions are satisfiable")
 
 	g.findLoops()
